@@ -22,5 +22,5 @@ def run(ctx):
         ctx.guard("C05", "tables", lambda: data.base64_tables(ctx, prog))
         ctx.guard("C05", "sizes", lambda: data.block_size_tables(ctx, prog))
         ctx.guard("C05", "consts", lambda: data.len_constants(ctx, prog))
-        ctx.guard("C05", "sym", lambda: eqord.len_index_symmetry(ctx, prog))
+        ctx.guard("C05", "sym", lambda: eqord.len_index_symmetry(ctx, prog, scope=r"(store_into_bytes|insert_block_hash_into_bytes|len_in_str|::to_string|core::fmt::Display)", floor=2))
     return ctx.finish(EXPL, ["core::str::from_utf8 accepts all-ASCII input", "alloc::vec::from_elem(0, n) yields n bytes"])
